@@ -227,8 +227,23 @@ func (s *session) commit(r *sessionRecord, trivial bool) (err error) {
 		// manifest journal writer not yet created, create one
 		err = s.newManifest(r, nv)
 	} else if s.manifest.Size() >= s.o.GetMaxManifestFileSize() {
-		// pass nil sessionRecord to avoid over-reference table file
-		err = s.newManifest(nil, nv)
+		// pass a fresh sessionRecord to avoid over-reference table file, but
+		// carry over the states recorded by r, since they won't be written
+		// anywhere else.
+		nr := &sessionRecord{}
+		if r.has(recJournalNum) {
+			nr.setJournalNum(r.journalNum)
+		}
+		if r.has(recPrevJournalNum) {
+			nr.setPrevJournalNum(r.prevJournalNum)
+		}
+		if r.has(recSeqNum) {
+			nr.setSeqNum(r.seqNum)
+		}
+		for _, cp := range r.compPtrs {
+			s.setCompPtr(cp.level, cp.ikey)
+		}
+		err = s.newManifest(nr, nv)
 	} else {
 		err = s.flushManifest(r)
 	}
